@@ -578,6 +578,33 @@ def build_catalog():
             return (lambda: T.reshape(A, [(tot, tot)])), (lambda: T.reshape(A, [(tot, tot + 1)])), None
         return (lambda: T.reshape(x, [tot])), (lambda: T.reshape(x, bad)), None
 
+    @entry("reshape:operator_one_sided_count", True)
+    def _(T, P):
+        # only the row count or only the column count of the requested operator shape is wrong (smaller or larger)
+        N = [max(n, 2) for n in P["N"]]
+        M = [max(n, 2) for n in P["M"]]
+        A = _tt(T, N, P["R1"], P["seed"], M=M)
+        k = P["k"]
+        good = [(m, n) for m, n in zip(M, N)]
+        bad = list(good)
+        v = P["aux"] % 6
+        m, n = good[k]
+        sm = [q for q in (2, 3) if m % q == 0][0] if any(m % q == 0 for q in (2, 3)) else m
+        sn = [q for q in (2, 3) if n % q == 0][0] if any(n % q == 0 for q in (2, 3)) else n
+        if v == 0:
+            bad[k] = (m // sm if m // sm >= 1 and sm != 1 else m + 1, n)
+        elif v == 1:
+            bad[k] = (m, n // sn if sn != 1 else n + 1)
+        elif v == 2:
+            bad[k] = (m * 2, n)
+        elif v == 3:
+            bad[k] = (m, n * 2)
+        elif v == 4:
+            bad = [(int(np.prod(M)) // sm if sm != 1 else int(np.prod(M)) + 1, int(np.prod(N)))]
+        else:
+            bad = good + [(1, 2)]
+        return (lambda: T.reshape(A, good)), (lambda: T.reshape(A, bad)), None
+
     @entry("permute:invalid_dims", True)
     def _(T, P):
         N = P["N"] + [2]
